@@ -22,8 +22,12 @@ type seedRow struct {
 }
 
 type faultSpec struct {
-	Point string `json:"point"` // "batch" (the rows PutBatch) | "ver" (the version-row Put)
+	// "batch" (the rows PutBatch of registry Reg) | "ver" (the version-row Put of registry Reg);
+	// for a rename also "write" (its K-th storage write call fails, whatever it is) and
+	// "stop" (the process stops after its K-th write call: every later write fails; K = 0: before any)
+	Point string `json:"point"`
 	Reg   int    `json:"reg"`
+	K     int    `json:"k,omitempty"`
 }
 
 type stepSpec struct {
@@ -146,8 +150,13 @@ func (f *faultSpec) coq() string {
 	if f == nil {
 		return "NoFault"
 	}
-	if f.Point == "batch" {
+	switch f.Point {
+	case "batch":
 		return fmt.Sprintf("(FailBatch %d)", f.Reg)
+	case "write":
+		return fmt.Sprintf("(FailWrite %d)", f.K)
+	case "stop":
+		return fmt.Sprintf("(StopAfter %d)", f.K)
 	}
 	return fmt.Sprintf("(FailVer %d)", f.Reg)
 }
@@ -243,12 +252,28 @@ func run(sc *scenario) (coq string, tags []string, err error) {
 
 	var active *faultSpec
 	fired := false
+	inRename := false
+	nWrites := 0 // storage write calls issued by the current rename
 	wrap := &kit.Wrap{Inner: inner}
 	wrap.Before = func(c *kit.Call) kit.Verdict {
+		isWrite := false
+		switch c.Op {
+		case "Put", "PutBatch", "InsertIfNotExists", "CompareAndSwap", "CompareAndDelete":
+			isWrite = true
+		}
+		if inRename && isWrite {
+			nWrites++
+		}
 		if active == nil {
 			return kit.Verdict{}
 		}
 		switch {
+		case inRename && isWrite && active.Point == "write" && nWrites == active.K:
+			fired = true
+			return kit.Verdict{FailBefore: errInjected}
+		case inRename && isWrite && active.Point == "stop" && nWrites > active.K:
+			fired = true
+			return kit.Verdict{FailBefore: errInjected}
 		case active.Point == "batch" && c.Op == "PutBatch" && bytes.Equal(c.PKey, regPK[active.Reg]):
 			fired = true
 			return kit.Verdict{FailBefore: errInjected}
@@ -289,8 +314,9 @@ func run(sc *scenario) (coq string, tags []string, err error) {
 		active, fired = s.Fault, false
 		switch s.Kind {
 		case "rename":
+			inRename, nWrites = true, 0
 			e := rename(st, s.Old, s.New)
-			active = nil
+			inRename, active = false, nil
 			obs.Code = errClass(e)
 			if e != nil {
 				obs.Err = e.Error()
@@ -300,6 +326,13 @@ func run(sc *scenario) (coq string, tags []string, err error) {
 			}
 			terms = append(terms, fmt.Sprintf("TRename %s %s %s %d %s", nm(s.Old), nm(s.New), s.Fault.coq(), obs.Code, obs.Dump.coq()))
 			tagset[fmt.Sprintf("rename:code%d", obs.Code)] = true
+			tagset[fmt.Sprintf("rename:writes%d", nWrites)] = true
+			if s.Fault != nil {
+				tagset[fmt.Sprintf("rename-fault:%s%d", s.Fault.Point, s.Fault.K+s.Fault.Reg)] = true
+				if fired {
+					tagset["rename-fault-fired"] = true
+				}
+			}
 		default:
 			retry := s.Kind == "retry"
 			if retry && proc == nil {
@@ -442,7 +475,7 @@ func shapeKey(sc *scenario) string {
 			}
 		}
 		if s.Fault != nil {
-			fmt.Fprintf(&sb, "!%s%d", s.Fault.Point, s.Fault.Reg)
+			fmt.Fprintf(&sb, "!%s%d.%d", s.Fault.Point, s.Fault.Reg, s.Fault.K)
 		}
 	}
 	return sb.String()
